@@ -181,6 +181,11 @@ func (a *AvahiProvider) Announce(serviceName string, port int, txt []string) err
 		Txt:  txt,
 	}
 
+	return a.announce(serviceName, port, txt)
+}
+
+// announce the service, a.mux has to be locked
+func (a *AvahiProvider) announce(serviceName string, port int, txt []string) error {
 	logging.Log().Debug("mdns: using avahi")
 
 	var btxt [][]byte
@@ -287,15 +292,15 @@ func (a *AvahiProvider) attemptReconnect(cb api.MdnsResolveCB, serviceData *mdns
 		logging.Log().Debug("mdns: avahi - reconnected")
 
 		// announce what is to be announced now, this may have changed while disconnected
+		// and must not overwrite an announcement made in this very moment
 		a.mux.Lock()
 		serviceData = a.mdnsServiceData
-		a.mux.Unlock()
-
-		if serviceData != nil {
-			if err := a.Announce(serviceData.Name, serviceData.Port, serviceData.Txt); err != nil {
+		if serviceData != nil && !a.manualShutdown {
+			if err := a.announce(serviceData.Name, serviceData.Port, serviceData.Txt); err != nil {
 				logging.Log().Debug("mdns: avahi - error re-announcing service:", err)
 			}
 		}
+		a.mux.Unlock()
 
 		return
 	}
